@@ -315,7 +315,7 @@ func TestVerifReplay(t *testing.T) {
 	overlay[filepath.Join(w.Repo, hs.Pkg, "zz_verif_replay_test.go")] = tdst
 	ob, _ := json.MarshalIndent(map[string]interface{}{"Replace": overlay}, "", " ")
 	os.WriteFile(filepath.Join(dir, "overlay.json"), ob, 0o644)
-	cmdline := fmt.Sprintf("cd %s && VERIF_MODEL=%s GOFLAGS=-mod=mod GOPROXY=off GOSUMDB=off GOTOOLCHAIN=local timeout 600 go test -vet=off -count=1 -overlay %s -run '^TestVerifReplay$' -v ./%s/\n",
+	cmdline := fmt.Sprintf("cd %s && VERIF_TIER="+os.Getenv("VERIF_TIER")+" VERIF_MODEL=%s GOFLAGS=-mod=mod GOPROXY=off GOSUMDB=off GOTOOLCHAIN=local timeout 600 go test -vet=off -count=1 -overlay %s -run '^TestVerifReplay$' -v ./%s/\n",
 		w.Repo, filepath.Join(dir, "model.json"), filepath.Join(dir, "overlay.json"), hs.Pkg)
 	os.WriteFile(filepath.Join(dir, "cmd.sh"), []byte("#!/bin/sh\n# replays the solver counterexample against the real build; exit status 1 = reproduced\n"+cmdline), 0o755)
 	t0 := time.Now()
